@@ -378,8 +378,18 @@ impl WorldB {
                 } else if n > self.max_clients_cur {
                     obs.count("probe.max_clients_raised");
                 }
+                let before = self.server_snap();
                 self.server.set_max_clients(n);
                 self.max_clients_cur = n;
+                // changing the limit changes nothing else: every session and half-open entry is still there, the accessor follows
+                obs.count("oracle.C10.limit_change_keeps_table");
+                if self.server.max_clients() != n {
+                    obs.violate("C10", "limit-accessor-disagrees", "max_clients", format!("set {} read {}", n, self.server.max_clients()));
+                }
+                let after = self.server_snap();
+                if before != after {
+                    obs.violate("C10", "limit-change-altered-table", if after.clients.len() < before.clients.len() { "sessions-lost" } else { "other" }, format!("limit {} -> {}: {:?} -> {:?}", self.max_clients_cur, n, before.connected, after.connected));
+                }
             }
             K_RESTART => {
                 obs.count("fault.server_restart");
